@@ -22,6 +22,7 @@ fn main()
 		Some("mut-eval") => ast_eval::run_mut(),
 		Some("syntax-eval") => ast_eval::run_syntax(),
 		Some("lint-tree-eval") => ast_eval::run_lint_tree(),
+		Some("label-eval") => ast_eval::run_labels(),
 		_ =>
 		{
 			eprintln!("usage: pv_replay <error-codes|value-types|lexdiff>");
